@@ -543,7 +543,8 @@ bool Parser::parse_patch_header(Patch& patch, PatchHeaderInfo& header_info, int 
         }
 
         if (parser.consume_specific("Prereq: ")) {
-            parser.parse_file_line(strip, patch.prerequisite);
+            // NOTE: this is a word to look for in the file to patch, not a path which components are stripped from.
+            parser.parse_file_line(0, patch.prerequisite);
             continue;
         }
 
